@@ -97,6 +97,10 @@ def reached_fns(unit_name, g, res):
             pre, tail = '::'.join(parts[:2]) + '::', '::' + '::'.join(parts[-2:])
             if any(n.startswith(pre) and n.endswith(tail) and 'impl&%' in n for n in names):
                 out.add(f['id'])
+            # impls for primitive types (`impl SeekNum for u32`) are reported as `<module>::impl&%N::<fn>` without the type
+            elif parts[-2] in ('i32', 'u32', 'u64', 'u128', 'usize') and any(
+                    re.fullmatch(re.escape(pre) + r'impl&%\d+::' + re.escape(parts[-1]), n) for n in names):
+                out.add(f['id'])
     return out
 
 
